@@ -160,6 +160,7 @@ class CallOutcome:
     def __init__(self):
         self.status = None
         self.error = None
+        self.trace = None
         self.world = None
         self.net_pop = None
         self.net_pop_fed = None
@@ -201,7 +202,8 @@ def call_coordinator(runner, seam, log, call_no, call, mode):
         o.error = "SystemExit(%r)" % (e.code,)
     except BaseException as e:  # noqa
         o.status = "raised:" + type(e).__name__
-        o.error = (str(e)[:300] + "\n" + traceback.format_exc(limit=4))[-900:]
+        o.error = "%s: %s" % (type(e).__name__, " ".join(str(e).split())[:200])
+        o.trace = traceback.format_exc(limit=6)[-1200:]
     o.crossings = list(seam.crossings)
     o.options_after = options
     o.selection_after = selection
